@@ -174,6 +174,17 @@ ValIs(a, b, st) ==
       [] a.t = "obj" /\ b.t = "obj" -> a.id = b.id
       [] OTHER -> ValEq(a, b, st)
 
+(* list / map helpers of the heap model *)
+RECURSIVE IndexOf(_, _, _, _), MapFind(_, _, _, _)
+IndexOf(xs, i, v, st) == IF i > Len(xs) THEN 0 ELSE IF ValEq(xs[i], v, st) THEN i ELSE IndexOf(xs, i + 1, v, st)
+MapFind(es, i, k, st) == IF i > Len(es) THEN 0 ELSE IF ValEq(es[i].k, k, st) THEN i ELSE MapFind(es, i + 1, k, st)
+MapPut(es, k, v, st) == LET j == MapFind(es, 1, k, st) IN
+                        IF j = 0 THEN Append(es, [k |-> k, v |-> v]) ELSE [es EXCEPT ![j].v = v]
+RemoveAt(xs, j) == SubSeq(xs, 1, j - 1) \o SubSeq(xs, j + 1, Len(xs))
+RECURSIVE Rev(_)
+Rev(xs) == IF xs = <<>> THEN <<>> ELSE Append(Rev(Tail(xs)), Head(xs))
+NewMap(st, es) == [st EXCEPT !.maps = Append(@, es)]
+
 -----------------------------------------------------------------------------
 (* binary operators on evaluated operands *)
 ArithRes(r, st) == IF r.fail # "" THEN R(VNil, FailWith(st, r.fail)) ELSE R(VInt(r.v), st)
@@ -251,11 +262,23 @@ Eval(e, env, st) ==
            LET r == EvalSeq(e.es, 1, env, st, <<>>) IN
            IF ~IsOk(r.st) THEN R(VNil, r.st)
            ELSE LET s2 == NewList(r.st, r.v) IN R(VList(Len(s2.lists)), s2)
+      [] e.k = "map" ->
+           LET ks == EvalSeq([j \in 1..Len(e.kvs) |-> e.kvs[j].key], 1, env, st, <<>>) IN
+           IF ~IsOk(ks.st) THEN R(VNil, ks.st)
+           ELSE LET vs == EvalSeq([j \in 1..Len(e.kvs) |-> e.kvs[j].val], 1, env, ks.st, <<>>) IN
+                IF ~IsOk(vs.st) THEN R(VNil, vs.st)
+                ELSE LET RECURSIVE Fill(_, _)
+                         Fill(j, acc) == IF j > Len(ks.v) THEN acc ELSE Fill(j + 1, MapPut(acc, ks.v[j], vs.v[j], vs.st))
+                         s2 == NewMap(vs.st, Fill(1, <<>>)) IN
+                     R(VMap(Len(s2.maps)), s2)
       [] e.k = "idx" ->
            LET o == Eval(e.o, env, st) IN
            IF ~IsOk(o.st) THEN o
            ELSE LET i == Eval(e.i, env, o.st) IN
                 IF ~IsOk(i.st) THEN i
+                ELSE IF o.v.t = "map" THEN
+                        (LET j == MapFind(i.st.maps[o.v.id], 1, i.v, i.st) IN
+                         IF j = 0 THEN R(VNil, i.st) ELSE R(i.st.maps[o.v.id][j].v, i.st))
                 ELSE IF i.v.t # "int" THEN R(VNil, FailWith(i.st, "type"))
                 ELSE IF o.v.t = "list" THEN
                         (IF i.v.v < 0 \/ i.v.v >= Len(i.st.lists[o.v.id]) THEN R(VNil, FailWith(i.st, "index"))
@@ -305,12 +328,60 @@ CallValue(f, args, st) ==
          ELSE R(IF r.status = "return" THEN r.retv ELSE VNil,
                 [r EXCEPT !.status = "ok", !.retv = VNil, !.stack = st.stack])
 
-(* built-in methods on lists and strings used by the core generators *)
+(* built-in methods of lists, maps, strings and functions.  Lists are heap sequences, *)
+(* maps are heap sequences of [k, v] entries with distinct keys (the order is a model  *)
+(* artefact: generators never observe it).                                             *)
+RECURSIVE MapList(_, _, _, _, _), FilterList(_, _, _, _, _)
+MapList(xs, i, f, st, acc) ==
+    IF i > Len(xs) \/ ~IsOk(st) THEN R(acc, st)
+    ELSE LET r == CallValue(f, <<xs[i]>>, st) IN MapList(xs, i + 1, f, r.st, Append(acc, r.v))
+FilterList(xs, i, f, st, acc) ==
+    IF i > Len(xs) \/ ~IsOk(st) THEN R(acc, st)
+    ELSE LET r == CallValue(f, <<xs[i]>>, st) IN
+         FilterList(xs, i + 1, f, r.st, IF IsOk(r.st) /\ r.v.t = "bool" /\ r.v.b THEN Append(acc, xs[i]) ELSE acc)
+
 Builtin(o, m, args, st) ==
     IF o.t = "list" THEN
         LET xs == st.lists[o.id] IN
         CASE m = "len" -> R(VInt(Len(xs)), st)
           [] m = "push" -> R(VNil, [st EXCEPT !.lists[o.id] = Append(@, args[1])])
+          [] m = "remove" ->
+               IF args[1].t # "int" THEN R(VNil, FailWith(st, "type"))
+               ELSE IF args[1].v < 0 \/ args[1].v >= Len(xs) THEN R(VNil, FailWith(st, "index"))
+               ELSE R(xs[args[1].v + 1], [st EXCEPT !.lists[o.id] = RemoveAt(xs, args[1].v + 1)])
+          [] m = "reverse" -> R(VNil, [st EXCEPT !.lists[o.id] = Rev(xs)])
+          [] m = "clear" -> R(VNil, [st EXCEPT !.lists[o.id] = <<>>])
+          [] m = "clone" -> LET s2 == NewList(st, xs) IN R(VList(Len(s2.lists)), s2)
+          [] m = "join" ->        \* appends the elements of the argument, returns the receiver; the argument is only read
+               IF args[1].t # "list" THEN R(VNil, FailWith(st, "type"))
+               ELSE R(o, [st EXCEPT !.lists[o.id] = xs \o st.lists[args[1].id]])
+          [] m = "index_of" -> LET j == IndexOf(xs, 1, args[1], st) IN R(IF j = 0 THEN VNil ELSE VInt(j - 1), st)
+          [] m = "map" -> LET r == MapList(xs, 1, args[1], st, <<>>) IN
+                          IF ~IsOk(r.st) THEN R(VNil, r.st)
+                          ELSE LET s2 == NewList(r.st, r.v) IN R(VList(Len(s2.lists)), s2)
+          [] m = "filter" -> LET r == FilterList(xs, 1, args[1], st, <<>>) IN
+                             IF ~IsOk(r.st) THEN R(VNil, r.st)
+                             ELSE LET s2 == NewList(r.st, r.v) IN R(VList(Len(s2.lists)), s2)
+          [] OTHER -> R(VNil, FailWith(st, "type"))
+    ELSE IF o.t = "map" THEN
+        LET es == st.maps[o.id] IN
+        CASE m = "len" -> R(VInt(Len(es)), st)
+          [] m = "contains_key" -> R(VBool(MapFind(es, 1, args[1], st) # 0), st)
+          [] m = "replace" -> LET j == MapFind(es, 1, args[1], st) IN
+                              R(IF j = 0 THEN VNil ELSE es[j].v, [st EXCEPT !.maps[o.id] = MapPut(es, args[1], args[2], st)])
+          [] m = "remove" -> LET j == MapFind(es, 1, args[1], st) IN
+                             IF j = 0 THEN R(VNil, st) ELSE R(es[j].v, [st EXCEPT !.maps[o.id] = RemoveAt(es, j)])
+          [] m = "clear" -> R(VNil, [st EXCEPT !.maps[o.id] = <<>>])
+          [] m = "clone" -> LET s2 == NewMap(st, es) IN R(VMap(Len(s2.maps)), s2)
+          [] m = "keys" -> LET s2 == NewList(st, [j \in 1..Len(es) |-> es[j].k]) IN R(VList(Len(s2.lists)), s2)
+          [] m = "values" -> LET s2 == NewList(st, [j \in 1..Len(es) |-> es[j].v]) IN R(VList(Len(s2.lists)), s2)
+          [] m = "pairs" ->
+               LET RECURSIVE Pairs(_, _, _)
+                   Pairs(j, s1, acc) == IF j > Len(es) THEN R(acc, s1)
+                                        ELSE LET s2 == NewList(s1, <<es[j].k, es[j].v>>) IN Pairs(j + 1, s2, Append(acc, VList(Len(s2.lists))))
+                   r == Pairs(1, st, <<>>)
+                   s3 == NewList(r.st, r.v) IN
+               R(VList(Len(s3.lists)), s3)
           [] OTHER -> R(VNil, FailWith(st, "type"))
     ELSE IF o.t = "str" THEN
         CASE m = "len" -> R(VInt(Len(o.s)), st)
@@ -433,6 +504,15 @@ AssignTo(s, env, st, dummy) ==
         IF ~IsOk(o.st) THEN ER(env, o.st)
         ELSE LET i == Eval(s.target.i, env, o.st) IN
         IF ~IsOk(i.st) THEN ER(env, i.st)
+        ELSE IF o.v.t = "map" THEN
+             (LET r == Eval(s.e, env, i.st) IN
+              IF ~IsOk(r.st) THEN ER(env, r.st)
+              ELSE IF s.op = "=" THEN ER(env, [r.st EXCEPT !.maps[o.v.id] = MapPut(@, i.v, r.v, r.st)])
+              ELSE LET j == MapFind(r.st.maps[o.v.id], 1, i.v, r.st) IN
+                   IF j = 0 THEN ER(env, FailWith(r.st, "key"))
+                   ELSE LET b == BinOp(s.op, r.st.maps[o.v.id][j].v, r.v, r.st) IN
+                        IF ~IsOk(b.st) THEN ER(env, b.st)
+                        ELSE ER(env, [b.st EXCEPT !.maps[o.v.id] = MapPut(@, i.v, b.v, b.st)]))
         ELSE IF o.v.t # "list" \/ i.v.t # "int" THEN ER(env, FailWith(i.st, "type"))
         ELSE IF i.v.v < 0 \/ i.v.v >= Len(i.st.lists[o.v.id]) THEN ER(env, FailWith(i.st, "index"))
         ELSE LET r == Eval(s.e, env, i.st) IN
